@@ -121,19 +121,20 @@ Definition to_cop (o : zcop) : cop Z :=
 Definition obs_c (g : dgraph) (s : cstate Z) : val :=
   VL [vlistZ (values Z s); VB (suspended Z s)].
 
-Fixpoint crun (ds : list ddesc) (g : dgraph) (s : cstate Z) (ops : list (cop Z)) : list val :=
+Fixpoint crun (fin : bool) (ds : list ddesc) (g : dgraph) (s : cstate Z) (ops : list (cop Z)) : list val :=
   match ops with
   | [] => []
-  | o :: rest => let s1 := cstep Z 0 (hZ ds) g s o in obs_c g s1 :: crun ds g s1 rest
+  | o :: rest => let s1 := cstep Z 0 (hZ ds) fin g s o in obs_c g s1 :: crun fin ds g s1 rest
   end.
 
-Definition run_ccase (c : list ddesc * list Z * list zcop) : val :=
-  let '(ds, asg, ops) := c in
+(** [fin]: does the current source of updates_postponed have a `finally:` clause *)
+Definition run_ccase (c : bool * list ddesc * list Z * list zcop) : val :=
+  let '(fin, ds, asg, ops) := c in
   let g : dgraph := map (fun d => map Z.to_nat (snd d)) ds in
   let s0 := cinit Z 0 (hZ ds) g asg in
-  VL (obs_c g s0 :: crun ds g s0 (map to_cop ops)).
+  VL (obs_c g s0 :: crun fin ds g s0 (map to_cop ops)).
 
 (** a single entry point so that one generated cases file can hold both kinds *)
-Inductive anycase := ACalc (c : list cdesc * list Z * list zop) | ACtl (c : list ddesc * list Z * list zcop).
+Inductive anycase := ACalc (c : list cdesc * list Z * list zop) | ACtl (c : bool * list ddesc * list Z * list zcop).
 Definition run_any (c : anycase) : val :=
   match c with ACalc c => run_case c | ACtl c => run_ccase c end.
